@@ -292,4 +292,36 @@ theorem fragmented_block_witness :
     (dfBlock (decodeFrame (runFrames (rd0, [], none) [cut1, cut2]).1 cut3).2).isSome = true ∧
     Spec.Http.request (rd0.hpack.decode [0x82, 0x86, 0x84, 0x41, 1, 97]).fields false = [] := by decide +kernel
 
+
+/-! ### REFUSED_STREAM (F31, repaired): the concurrency limit reached while a pushed stream was reserved -/
+
+/-- a client that allows ONE concurrent pushed stream, after `send_request` and one `poll` -/
+def cliLim : Conn :=
+  (({ (Conn.init { mcs := some 1 }) with streams :=
+      ((Conn.init { mcs := some 1 }).streams.sendRequest false [Conn.field ":method" "GET", Conn.field ":scheme" "http",
+        Conn.field ":authority" "example.com", Conn.field ":path" "/"] true none).1 } : Conn).clientPoll 100).1
+
+/-- PUSH_PROMISE on stream 1 promising `promised`: GET http://a/ -/
+def ppFrame (promised : Nat) : Bytes := [0, 0, 10, 5, 4, 0, 0, 0, 1, 0, 0, 0, promised, 0x82, 0x86, 0x84, 0x41, 1, 97]
+/-- HEADERS[`88`] (`:status: 200`) on stream `sid` -/
+def respFrame (sid : Nat) : Bytes := [0, 0, 1, 1, 4, 0, 0, 0, sid, 0x88]
+
+def frameOf (r : Reader) (b : Bytes) : Option Frame.Frame :=
+  match (decodeFrame r b).2 with | .frame f => some f | _ => none
+
+def feedFrame (c : Conn) (b : Bytes) : Conn := (c.recvFrame (frameOf rd0 b)).1
+
+/-- two promises are reserved (2 and 4), the response on 2 takes the only slot -/
+def cliLim3 : Conn := feedFrame (feedFrame (feedFrame cliLim (ppFrame 2)) (ppFrame 4)) (respFrame 2)
+
+/-- the (perfectly valid) response on stream 4 is then refused with REFUSED_STREAM — the only way that code
+    comes out of `Recv::recv_headers` —, nothing more is queued for it, the stream is reset -/
+theorem refused_stream_witness :
+    ((hdrOf rd0 (respFrame 4)).map fun h => stateErrOf (cliLim3.streams.recvRecvHeaders 2 h).2) =
+      some (some (.reset 4 REFUSED_STREAM .library)) ∧
+    (feedFrame cliLim3 (respFrame 4)).streams.store.slab.map (fun st => (st.id, st.state.isReset, st.pendingRecv.length)) =
+      [(1, false, 0), (2, false, 2), (4, true, 1)] ∧
+    cliLim3.streams.store.slab.map (fun st => (st.id, st.pendingRecv.length)) = [(1, 0), (2, 2), (4, 1)] := by
+  decide +kernel
+
 end H2V.Lemmas.ConnHttpP
